@@ -57,7 +57,7 @@ func main() {
 	cfg := vlib.Load()
 	rep := vlib.NewReport(cfg)
 	rep.Rule(rule)
-	rep.Assume("the sandbox contains no symbolic links, so lexical resolution (the oracle's reference) and physical resolution coincide")
+	rep.Assume("the sandbox contains no symbolic links except those an unpacked archive creates itself; escaping(name) is lexical, while the outside snapshot and the path-access oracle (which also reads the physical path of every returned descriptor) are physical")
 	rep.Assume("escaping(name) is decided by a lexical reference resolver (cross-checked against filepath.Clean(Join(root,name)))")
 	rep.Assume("archive/zip accepts non-local entry names (GODEBUG zipinsecurepath is not set to 0)")
 	rep.Assume("for DirStructure the root is the path of the top-level structure (children delegate to it); for unpacking the root is the extraction directory <storage>/tmp/<name>, later renamed to the destination")
